@@ -328,6 +328,28 @@ def check_ints(c, st):
             ranges.append([x, x])
     if rt != ('ok', tuple(tuple(r) for r in ranges)):
         return ('int-ranges', 'int_ranges_from_int_list(%r) = %r want %r' % (f[1], rt, ranges))
+    # other delimiters, and a blank after each delimiter: the same round trip
+    for delim, rdelim, space in ((';', ':', False), (',', '-', True), ('|', '..', True), (' ', '-', False), (',', '_', False)):
+        st.monitor_evals += 1
+        f2 = outcome(lambda: su.format_int_list(L, delim=delim, range_delim=rdelim, delim_space=space))
+        if f2[0] != 'ok':
+            return ('format_int_list-raised:delims:' + f2[1], 'format_int_list(%r, %r, %r, %r) raised %s' % (L, delim, rdelim, space, f2[1]))
+        p3 = outcome(lambda: su.parse_int_list(f2[1], delim=delim, range_delim=rdelim))
+        if p3 != ('ok', want):
+            return ('int-list-roundtrip:delims', 'parse(format(%r, %r, %r, space=%r)) = %r via %r, want %r'
+                    % (L, delim, rdelim, space, p3, f2[1], want))
+        if c['windows'] and not space:
+            start, end = c['windows'][0]
+            kw = {'range_start': start, 'delim': delim, 'range_delim': rdelim}
+            if end is not None:
+                kw['range_end'] = end
+            comp = outcome(lambda: su.complement_int_list(f2[1], **kw))
+            eff_end = end if end is not None else (max(want) + 1 if want else start)
+            missing = sorted(set(range(start, eff_end)) - set(want)) if eff_end > start else []
+            back = outcome(lambda: su.parse_int_list(comp[1], delim=delim, range_delim=rdelim)) if comp[0] == 'ok' else comp
+            if back != ('ok', missing):
+                return ('complement-wrong:delims', 'complement_int_list(%r, %r) = %r -> %r, want %r' % (f2[1], kw, comp, back, missing))
+        st.count('int_lists_with_other_delimiters')
     for start, end in c['windows']:
         st.monitor_evals += 1
         kw = {'range_start': start}
